@@ -4,6 +4,7 @@ from . import helpers_rules as H
 from . import roundtrip as R
 
 META = {
+    'claim_added': "Also decided: is_scalar() without a type is True for every ScalarNode; set_value retags every core-tagged node and installs a fresh node; built nodes carry the plain tag of their kind; is_empty/seq_items read the whole list; int/float text is read by PyYAML's constructors and float text written by its representer.",
     'level': 'other',
     'technique': 'static: table agreement (scalar_type_to_tag vs the tag arms of get_value / set_attribute / set_value / is_scalar), '
                  'isinstance-chain order, write-effect summaries of the accessors, position discipline of the pair-list operations '
